@@ -18,7 +18,7 @@ var (
 func ReadPreface(br io.Reader) bool {
 	b := make([]byte, prefaceLen)
 
-	n, err := br.Read(b[:prefaceLen])
+	n, err := io.ReadFull(br, b[:prefaceLen])
 	if err == nil && n == prefaceLen {
 		if bytes.Equal(b, http2Preface) {
 			return true
